@@ -52,6 +52,17 @@ func c19Do(s *Sys, tok, kind string, i int) c19Result {
 				r.secret = id
 			}
 		}
+	case "denied-seal":
+		// sys/seal is not routed through handleRequest: Core.SealWithRequest checks
+		// the token itself (the policy does not grant it, so the server stays up)
+		err = s.Core.SealWithRequest(rootCtx(), &logical.Request{Operation: logical.UpdateOperation, Path: "sys/seal", ClientToken: tok,
+			Connection: &logical.Connection{RemoteAddr: "127.0.0.1"}})
+		if err == nil {
+			err = fmt.Errorf("harness: the seal request was accepted")
+			if !s.Core.Sealed() {
+				err = nil
+			}
+		}
 	case "lookup":
 		resp, err = s.Req(tok, logical.ReadOperation, "auth/token/lookup-self", nil)
 	case "create":
@@ -254,6 +265,22 @@ func TestVerifC19(t *testing.T) {
 			exploreScenario(res, "c19", name, params, c19Body(t, img, tok, 1, kinds), fb, true, &item)
 		}
 		res.Bound("fine_mode_preemption_bound", fb)
+	}
+	// ---- the final use, for every kind of request that can be the final one (m = n
+	// requests: n-1 lease-generating uses, then the final request), including the
+	// requests the core authorises outside the ordinary request path (sys/seal)
+	for n := 1; n <= 2; n++ {
+		img, tok := c19Image(t, n)
+		for _, final := range append(append([]string{}, c19Kinds...), "denied-seal") {
+			var kinds []string
+			for i := 0; i < n-1; i++ {
+				kinds = append(kinds, "lease")
+			}
+			kinds = append(kinds, final)
+			params := map[string]interface{}{"n": n, "kinds": kinds}
+			name := fmt.Sprintf("final:n=%d:%s", n, strings.Join(kinds, "+"))
+			exploreScenario(res, "c19", name, params, c19Body(t, img, tok, n, kinds), 1, false, &item)
+		}
 	}
 	for n := 1; n <= maxN; n++ {
 		img, tok := c19Image(t, n)
